@@ -1053,9 +1053,21 @@ def construct(eng, n, st):
                 s.pc.append(r != NULL)
                 outs.append((s, PyObj(r, fresh=True)))
             elif short in ('list', 'tuple', 'set') and len(vals) == 1 and isinstance(vals[0], PyObj):
-                # list(iterable): a new object; iterating user objects may run Python
-                r = fresh('new_' + short, Ref)
+                # pybind11 converting constructor (PYBIND11_OBJECT_CVT): an object that already is a list / tuple is borrowed
+                # as it is; anything else is converted by PySequence_List / PySequence_Tuple into a new object (iterating user
+                # objects may run Python)
                 src = vals[0]
+                pred = {'tuple': M.py_is_tuple, 'list': M.py_is_list}.get(short)
+                if pred is not None:
+                    s_same = s.clone()
+                    self_ok = pred(src.ref)
+                    eng.assume(s_same, self_ok)
+                    eng.assume(s, z3.Not(self_ok))
+                    if eng.feasible(s_same):
+                        outs.append((s_same, PyObj(src.ref, fresh=src.fresh, stable=getattr(src, 'stable', False))))
+                    if not eng.feasible(s):
+                        continue
+                r = fresh('new_' + short, Ref)
                 s.pc.append(r != NULL)
                 if getattr(src, 'stable', False) or src.fresh:
                     s.pc.append(M.py_len(r) == M.py_len(src.ref))
